@@ -1,8 +1,11 @@
 ---------------------------- MODULE ClientStateMC ----------------------------
 (* Model-checking wrapper of ClientState: keeps the history, restricts the   *)
-(* histories to a plan (a set of operations per position) and a family of    *)
-(* initial states, and emits one CASE record per complete history for the    *)
-(* replay driver (harness/drive_clientstate.py).                             *)
+(* histories to a plan (OpsSel: a set of operations per position, Depth) and *)
+(* a family of initial states (InitSel), and emits one CASE record per       *)
+(* complete history for the replay driver (harness/drive_clientstate.py).    *)
+(* With -simulate the same module yields random histories from every         *)
+(* initial state (TLC evaluates the CONSTRAINT on every candidate successor, *)
+(* so each simulated prefix contributes all its one-step extensions).        *)
 EXTENDS ClientState, Json
 
 CONSTANTS Depth,      \* length of the emitted histories
